@@ -4,12 +4,13 @@ CONSTANTS MaxWraps = 5
           MaxCalls = 5
           Wide = TRUE
           FixedCode = TRUE
-          Modes = {"bind", "heap", "memo", "chain", "exc", "args", "deco"}
+          Modes = {"bind", "heap", "memo", "chain", "exc", "args", "deco", "order"}
           MaxExcChain = 2
           MaxBindings = 1
           MaxArgSteps = 0
           MaxDecoObjs = 3
           MaxDecoCalls = 0
+          MaxOrdChain = 2
           TwoDecos = TRUE
 INIT Init
 NEXT Next
@@ -25,6 +26,8 @@ INVARIANT NormalFormKeepsBehaviour
 INVARIANT ExcLaws
 INVARIANT ReplayIsTheCall
 INVARIANT ArgBindings
+INVARIANT OrderLaws
+INVARIANT OrderMatters
 INVARIANT DecoLaws
 INVARIANT DecoratedNormal
 INVARIANT NoDoubleWrapping
